@@ -1,5 +1,5 @@
 (* LockReach.v -- what "locked function" means.  Checks.unlocked_fns is computed by iterating
-   reach_step from the exported entry points; access_ok asks (closed_under) that the result contains
+   reach_step from the entry points (exported functions and init functions); access_ok asks (closed_under) that the result contains
    the entry points and is closed under the edges of the call graph cut at createStructDesc, and
    (disjoint) that no locked function is in it.  Then no call path from an entry point that avoids
    createStructDesc ends in a locked function: a function of locked_fns is entered only below
